@@ -37,8 +37,12 @@ def gen_scenario(rng, tier, big=False):
         scn['regs'] = [[0, k] for k in range(nfiles)]
     scn['_delays'] = rng.choice([0, 0, 1, 3])          # max ms
     scn['_dseed'] = rng.randrange(1 << 30)
-    if rng.random() < (0.08 if tier == 'quick' else 0.2):
+    if not big and rng.random() < (0.08 if tier == 'quick' else 0.2):
+        # small files only: every queue-full event costs the worker a 1 s back-off
         scn['_patch'] = {'RESULTS_QUEUE_SIZE': 5, 'NUM_BUFFERED_RESULTS': 7}
+        for f in scn['files']:
+            data = bytes.fromhex(f['content'])
+            f['content'] = b'\n'.join(data.split(b'\n')[:25]).hex()
     return scn
 
 
